@@ -99,16 +99,16 @@ type Val struct {
 func emptyVal() Val {
 	return Val{Nil: F, Bool: F, BoolV: F, Num: F, NumV: intNum("0"), NStr: F, NStrV: intNum("0"), Key: F, KeyV: "0", Str: F, Opq: F}
 }
-func nilVal() Val            { v := emptyVal(); v.Nil = T; return v }
-func boolVal(b string) Val   { v := emptyVal(); v.Bool = T; v.BoolV = b; return v }
-func numVal(n Num) Val       { v := emptyVal(); v.Num = T; v.NumV = n; return v }
-func nstrVal(n Num) Val      { v := emptyVal(); v.NStr = T; v.NStrV = n; return v }
-func keyVal(k string) Val    { v := emptyVal(); v.Key = T; v.KeyV = k; return v }
-func strVal(s string) Val    { v := emptyVal(); v.Str = T; v.StrV = s; return v }
-func opaqueVal() Val         { v := emptyVal(); v.Opq = T; return v }
-func truthy(v Val) string    { return Not(Or(v.Nil, And(v.Bool, Not(v.BoolV)))) }
-func pow2(k int) *big.Int    { return new(big.Int).Lsh(big.NewInt(1), uint(k)) }
-func lit53() string          { return pow2(53).String() }
+func nilVal() Val          { v := emptyVal(); v.Nil = T; return v }
+func boolVal(b string) Val { v := emptyVal(); v.Bool = T; v.BoolV = b; return v }
+func numVal(n Num) Val     { v := emptyVal(); v.Num = T; v.NumV = n; return v }
+func nstrVal(n Num) Val    { v := emptyVal(); v.NStr = T; v.NStrV = n; return v }
+func keyVal(k string) Val  { v := emptyVal(); v.Key = T; v.KeyV = k; return v }
+func strVal(s string) Val  { v := emptyVal(); v.Str = T; v.StrV = s; return v }
+func opaqueVal() Val       { v := emptyVal(); v.Opq = T; return v }
+func truthy(v Val) string  { return Not(Or(v.Nil, And(v.Bool, Not(v.BoolV)))) }
+func pow2(k int) *big.Int  { return new(big.Int).Lsh(big.NewInt(1), uint(k)) }
+func lit53() string        { return pow2(53).String() }
 func absLess(e, bound string) string {
 	return And("(< "+e+" "+bound+")", "(> "+e+" (- "+bound+"))")
 }
